@@ -2,6 +2,7 @@ package props
 
 import (
 	"go/token"
+	"go/types"
 	"strings"
 
 	"golang.org/x/tools/go/ssa"
@@ -37,6 +38,7 @@ func runC07(c *Ctx) {
 		c.R.Floor("C07.errors", cfg.Name, n, 190)
 		ruleReadFull(c, p, "C07.readfull")
 		ruleReaderSource(c, p, "C07.source")
+		ruleReadSizes(c, p, "C07.sizes")
 	}
 	// consumption: the decoders consume everything the encoders emit (C17 / C01 containments, shared)
 	if p := c.Prog(core.CfgDefault); p != nil {
@@ -47,6 +49,7 @@ func runC07(c *Ctx) {
 		ruleColumnShapeAs(c, p, "C07.consume")
 		ruleInferTables(c, p, "C07")
 		ruleColumnCount(c, p, "C07.colcount")
+		ruleVectoredEquiv(c, p, "C07.vectored")
 	}
 	c.R.Assumptions = append(c.R.Assumptions,
 		"io.ReadFull / binary.ReadUvarint / bufio return an error on every short read (standard library contract)",
@@ -156,4 +159,42 @@ func ruleColumnCount(c *Ctx, p *core.Program, rule string) {
 		}
 	}
 	c.R.Floor(rule, cfg, n, 3)
+}
+
+// ruleReadSizes: the amount a column decoder reads is not a remainder.
+func ruleReadSizes(c *Ctx, p *core.Program, rule string) {
+	c.R.Rule(rule, "in every DecodeColumn the size handed to a wire read (ReadRaw / ReadFull slice length / Ensure) does not derive from a remainder (`rows % k`): chunked skipping that reads the remainder last consumes 0 bytes for the final chunk whenever k divides the row count, so the column's last k bytes stay in the stream and any cut inside them goes unnoticed")
+	cfg := p.Cfg.Name
+	n := 0
+	for _, ct := range columnTypes(p) {
+		fn := methodOf(p, ct, "DecodeColumn")
+		if fn == nil || fn.Blocks == nil {
+			continue
+		}
+		bad := false
+		for _, call := range core.Calls(fn) {
+			f := core.CalleeFunc(call)
+			if f == nil || !core.IsMethod(f, core.PkgProto, "Reader", f.Name()) {
+				continue
+			}
+			for _, a := range call.Common().Args[1:] {
+				if _, isInt := a.Type().Underlying().(*types.Basic); !isInt {
+					continue
+				}
+				n++
+				if core.DependsOn(a, func(x ssa.Value) bool {
+					bo, ok := x.(*ssa.BinOp)
+					return ok && bo.Op == token.REM
+				}, false) {
+					bad = true
+					c.R.Bad(rule, core.CallKey(fn, call), cfg, p.Pos(call.Pos()), "the number of bytes read is a remainder: when the divisor divides the row count nothing is read for the last chunk")
+				}
+			}
+		}
+		_ = bad
+	}
+	c.R.Count("sized reads in column decoders["+cfg+"]", n)
+	if n > 0 {
+		c.R.Ok(rule, "decoders", cfg, "", sprintf("%d sized reads examined", n)).Trivial = true
+	}
 }
